@@ -40,11 +40,19 @@ class Positive(pydantic.BaseModel):
         return v
 
 
+try:
+    from typing import Annotated
+except ImportError:   # pragma: no cover
+    from typing_extensions import Annotated  # type: ignore
+
 TYPES: Dict[str, Any] = {
+    # a constraint that lives in Annotated metadata (what pydantic.Field / conint / PositiveInt are made of)
+    'bounded': Annotated[int, pydantic.Field(ge=0, le=10)],
     'int': int, 'str': str, 'float': float, 'bool': bool, 'opt_int': Optional[int], 'list_int': List[int], 'dict_str_int': Dict[str, int],
     'enum': Color, 'model': Point, 'vmodel': Positive, 'any': None,
 }
 TYPE_VALUES: Dict[str, List[Any]] = {
+    'bounded': [5, 0, 10, 11, -1, '3', '12', None, 1000, 5.0],
     'int': [1, 0, -5, '1', 1.0, 1.5, 'abc', None, True, [1], 10**30],
     'str': ['s', '', 1, None, ['s'], True],
     'float': [1.5, 1, '1.5', 'x', None, True, 10**400 if False else 1e308],
@@ -179,7 +187,7 @@ class C14(Check):
         "cases: signatures of 1..3 parameters (positional-or-keyword / keyword-only, with / without defaults) plus optional context parameter "
         "and optional parameters excluded by an exclusion predicate (name prefix 'dep_'; with a default, or without one and injected by a functools.wraps decorator), as plain function, coroutine or class based view "
         "method; JSON-schema half: per-parameter fragments from 15 schemas (type incl. unions, enum, minimum / maximum, minLength, items.type, a string format that is enforced only when the method's own validator arguments carry a format checker) + "
-        "top-level required / additionalProperties; pydantic half: annotations int, str, float, bool, Optional[int], List[int], Dict[str,int], "
+        "top-level required / additionalProperties, optionally under a validator constructed with a permissive validator-wide default schema (the method's own schema wins); pydantic half: annotations int, Annotated[int, Field(ge=0, le=10)], str, float, bool, Optional[int], List[int], Dict[str,int], "
         "an Enum, a model class, a model class whose validator raises ValueError, unannotated; coerce on / off; argument values from per-type "
         "alphabets of conforming, coercible ('1', 1.0, 'yes') and non-conforming values, passed positionally or by name, incl. unknown names, "
         "the context name and excluded names; optionally a second function with the same python name and other annotations, sharing the validator instance, is served first. Oracle: executed iff (a twin function binds) and (reference says the explicitly bound arguments "
@@ -196,7 +204,8 @@ class C14(Check):
     trusted_base = ['pydantic.TypeAdapter', 'reference JSON-schema evaluator in checks/c14.py', 'python call binding']
     required_classes = ['validator/jsonschema', 'validator/pydantic', 'coerce/on', 'coerce/off', 'outcome/executed', 'outcome/refused-by-binding',
                         'outcome/refused-by-validation', 'flavour/func', 'flavour/view', 'ctx/yes', 'excluded/yes', 'excluded/injected-without-default', 'attack/excluded-name-supplied',
-                        'converted', 'type/vmodel-rejects', 'passing/positional', 'passing/named', 'dispatcher/async', 'sibling-same-name-served-first', 'format/checked', 'format/not-checked']
+                        'converted', 'type/vmodel-rejects', 'passing/positional', 'passing/named', 'dispatcher/async', 'sibling-same-name-served-first', 'format/checked', 'format/not-checked',
+                        'jsonschema/validator-wide-default-schema', 'type/annotated-constraint']
 
     def strategy(self, tier: str):
         s_kind = st.sampled_from(['PK', 'PK', 'KO'])
@@ -276,6 +285,7 @@ class C14(Check):
                 # per-method validator arguments besides the schema: a format checker for this method and / or for the sibling
                 case_['format_checker'] = draw(st.integers(0, 3)) == 0
                 case_['sibling_format_checker'] = draw(s_bool)
+                case_['validator_default_schema'] = draw(st.integers(0, 2)) == 0
             if flavour == 'func' and draw(st.integers(0, 2)) == 0:
                 # a second function with the SAME python name (another module's 'meth') sharing the validator instance, served first
                 sib = [{'name': q['name'], 'kind': q['kind'], **({'type': draw(s_tname)} if validator == 'pydantic' else {'schema': draw(s_schema)})}
@@ -293,6 +303,12 @@ class C14(Check):
             {'dispatcher': 'async', 'validator': 'pydantic', 'flavour': 'view', 'ctx': True, 'excluded': True, 'coerce': False, 'top': {},
              'params': [{'name': 'p0', 'kind': 'PK', 'type': 'int'}, {'name': 'p1', 'kind': 'KO', 'type': 'model', 'default': {'value': None}}],
              'args': {'value': {'p0': '1', 'dep_x': 5}}},
+            {'dispatcher': 'sync', 'validator': 'pydantic', 'flavour': 'func', 'ctx': False, 'excluded': False, 'coerce': False, 'top': {},
+             'params': [{'name': 'p0', 'kind': 'PK', 'type': 'bounded'}], 'args': {'value': [11]}},
+            {'dispatcher': 'async', 'validator': 'pydantic', 'flavour': 'view', 'ctx': False, 'excluded': False, 'coerce': True, 'top': {},
+             'params': [{'name': 'p0', 'kind': 'KO', 'type': 'bounded', 'default': {'value': 3}}], 'args': {'value': {'p0': -1}}},
+            {'dispatcher': 'sync', 'validator': 'jsonschema', 'flavour': 'func', 'ctx': False, 'excluded': False, 'coerce': False, 'validator_default_schema': True,
+             'top': {'required': ['p0']}, 'params': [{'name': 'p0', 'kind': 'PK', 'schema': 0}], 'args': {'value': {'p0': 'not-an-integer'}}},
             {'dispatcher': 'sync', 'validator': 'jsonschema', 'flavour': 'func', 'ctx': True, 'excluded': False, 'coerce': False,
              'top': {'required': ['p0'], 'additionalProperties': False}, 'params': [{'name': 'p0', 'kind': 'PK', 'schema': 0}, {'name': 'p1', 'kind': 'PK', 'schema': 10, 'default': {'value': 'ab'}}],
              'args': {'value': [1.0, 'a']}},
@@ -308,7 +324,9 @@ class C14(Check):
             validator: Any = vpd.PydanticValidator(coerce=spec['coerce'], exclude_param=exclude_fn)
             vargs: Dict[str, Any] = {}
         else:
-            validator = vjs.JsonSchemaValidator(exclude_param=exclude_fn)
+            # validator-wide default arguments (here a permissive fallback schema): a method's own validate(...) arguments win over them
+            vdefaults = {'schema': {'type': 'object'}} if spec.get('validator_default_schema') else {}
+            validator = vjs.JsonSchemaValidator(exclude_param=exclude_fn, **vdefaults)
             schema = {'type': 'object', 'properties': {p['name']: SCHEMAS[p['schema']] for p in params}, **spec['top']}
             vargs = {'schema': schema}
             if spec.get('format_checker'):
@@ -485,6 +503,10 @@ class C14(Check):
                    {'executed': 'outcome/executed', 'binding': 'outcome/refused-by-binding', 'validation': 'outcome/refused-by-validation'}[verdict]]
         if spec['validator'] == 'pydantic':
             classes.append('coerce/on' if spec['coerce'] else 'coerce/off')
+        if spec.get('validator_default_schema'):
+            classes.append('jsonschema/validator-wide-default-schema')
+        if any(p.get('type') == 'bounded' for p in spec['params']):
+            classes.append('type/annotated-constraint')
         pv = spec['args'].get('value')
         if isinstance(pv, dict):
             classes.append('passing/named')
